@@ -135,6 +135,12 @@ def run(ctx):
                 ctx.sample({"members": wit["members"], "state": wit["state"], "permutations": len(perms)})
         # ---- the joint plan through the exporter -----------------------------------------------
         if joint_lines:
+            # steps in which nobody acts (every slot a nop), at any position including the first: the state stays
+            for _ in range(rng.choice([0, 1, 1, 2])):
+                pos = rng.randint(0, len(joint_lines))
+                joint_lines.insert(pos, magen.joint_line(w, []))
+                joint_expected.insert(pos, joint_expected[pos - 1] if pos else st_plan0)
+                ctx.count("joint_steps_with_only_nops")
             ptext = sx.plain(w.problem_ast(st_plan0))
             try:
                 prob = lib.parse_problem_text(ptext, dom)
@@ -150,6 +156,10 @@ def run(ctx):
             wit = {"domain": dtext, "problem": ptext, "plan": joint_lines}
             if len(trip) != len(joint_lines) or len(tree) != 2 * len(joint_lines) + 1:
                 ctx.violation("exporter:steps-differ-from-joint-actions", dict(wit, steps=len(trip), text_items=len(tree)))
+                continue
+            heads = [tree[0][0]] + [tree[2 * i + 2][0] for i in range(len(joint_lines))]
+            if heads != [":init"] + [":state"] * len(joint_lines):
+                ctx.violation("exporter:state-headers-are-not-one-init-followed-by-states", dict(wit, headers=heads))
                 continue
             prev = st_plan0
             for i, (t, exp) in enumerate(zip(trip, joint_expected)):
